@@ -94,6 +94,8 @@ pub enum UiOp {
     Dump,
     /// forced replay: hold role/site until another role/site has happened (see sched::Rule)
     Rule(&'static str, &'static str, &'static str, &'static str),
+    /// once (role, site) has happened, hold (role, site) until (role, site)
+    RuleAfter(&'static str, &'static str, &'static str, &'static str, &'static str, &'static str),
 }
 
 #[derive(Clone, Debug)]
@@ -309,6 +311,10 @@ pub fn run_scenario(sc: &Scenario, policy: Policy, run_id: u64, lines: &mut Vec<
                 sched.user("joined", String::new());
             }
             UiOp::Dump => ui_dump(&nucleo, &cx),
+            UiOp::RuleAfter(ar, a_s, br, bs, ur, us) => {
+                sched.add_rule_after((ar, a_s), (br, bs), (ur, us));
+                sched.user("rule", format!("\"after\":\"{}@{}\",\"block\":\"{}@{}\",\"until\":\"{}@{}\"", ar, a_s, br, bs, ur, us));
+            }
             UiOp::Rule(br, bs, ur, us) => {
                 sched.add_rule((br, bs), (ur, us));
                 sched.user("rule", format!("\"block\":\"{}@{}\",\"until\":\"{}@{}\"", br, bs, ur, us));
@@ -408,6 +414,28 @@ pub fn scenarios(thorough: bool, rng: &mut StdRng) -> Vec<Scenario> {
       vec![(1, vec![Extend(vec![0, 1, 2])])]);
     s("forced-lost-wakeup-notify-before-unlock", 1, 1, vec![NewInjector(1), StartWriter(0), JoinWriters, Reparse(1), Tick(0), Rule("pool", "run.end", "main", "tick.armed"), DrainNotified(0)],
       vec![(1, vec![Extend(vec![0, 1, 2])])]);
+    // adversarial schedules for the spawn / notify hand-over: the whole run happens before the UI thread does anything
+    // else after spawning it (rules that cannot be honoured by the code under test expire)
+    s("run-completes-right-after-spawn", 1, 1, vec![NewInjector(1), Reparse(1), Tick(50), StartWriter(0), JoinWriters, RuleAfter("main", "tick.spawn", "main", "", "pool", "run.end"), Tick(0), DrainNotified(10)],
+      vec![(1, vec![Push(1), Push(2)])]);
+    s("run-completes-right-after-spawn-empty", 1, 1, vec![NewInjector(1), Tick(50), StartWriter(0), JoinWriters, RuleAfter("main", "tick.spawn", "main", "", "pool", "run.end"), Tick(0), DrainNotified(10)],
+      vec![(1, vec![Push(1), Push(2)])]);
+    // empty pattern, a push that is in flight while the worker scans and completes later without any newer index
+    s("empty-pattern-inflight", 1, 1, vec![NewInjector(1), StartWriter(0), Tick(0), Tick(0), Tick(5), JoinWriters, DrainNotified(10)], vec![(1, vec![Push(1)])]);
+    s("empty-pattern-inflight-2", 2, 1, vec![NewInjector(1), NewInjector(2), StartWriter(0), StartWriter(1), Tick(0), Tick(0), Tick(5), JoinWriters, DrainNotified(10)],
+      vec![(1, vec![Push(1)]), (2, vec![Push(2), Push(3)])]);
+    // an append edit that cancels a scan in progress, then quiescence without any non-append edit
+    s("append-cancels-scan", 3, 1, vec![NewInjector(1), StartWriter(0), JoinWriters, Reparse(1), Tick(0), Reparse(2), Tick(0), Drain(10)],
+      vec![(1, vec![Extend(vec![0, 1, 3, 7, 8, 9, 10, 12, 13, 15, 19, 20])])]);
+    s("append-cancels-scan-streaming", 2, 1, vec![NewInjector(1), Reparse(1), StartWriter(0), Tick(0), Reparse(2), Tick(0), Reparse(3), Tick(0), JoinWriters, Drain(10)],
+      vec![(1, vec![Extend(vec![0, 1, 3, 7]), Extend(vec![8, 9, 10, 12]), Push(13)])]);
+    // an injector obtained between two restarts must not feed the new stream
+    s("restart-stale-injector", 2, 1, vec![NewInjector(1), Reparse(1), Restart(false), NewInjector(2), Restart(false), NewInjector(3), StartWriter(0), StartWriter(1), Tick(0), Tick(10), JoinWriters, Drain(10)],
+      vec![(2, vec![Push(1001), Push(1002)]), (3, vec![Push(2001)])]);
+    // the first run after a restart is cancelled (by an append edit) before the pool thread starts it
+    s("restart-cancel-before-run", 2, 1, vec![NewInjector(1), Reparse(1), StartWriter(0), JoinWriters, Drain(10), Restart(false), NewInjector(2), StartWriter(1), JoinWriters,
+        RuleAfter("main", "tick.spawn", "pool", "", "main", "tick.lock"), Tick(0), Reparse(2), Tick(0), Drain(10)],
+      vec![(1, vec![Extend(vec![2, 0, 14, 1, 5, 3])]), (2, vec![Extend(vec![1000, 1001, 1003, 1007, 1008, 1009, 1012, 1013])])]);
     // handle bookkeeping
     s("handles", 1, 1, vec![NewInjector(1), CloneInjector(2, 1), Dump, DropInjector(1), Restart(false), Dump, NewInjector(3), Tick(0), DropInjector(2), Restart(true), Tick(0), NewInjector(4), CloneInjector(5, 4), Restart(false), Restart(false), DropInjector(4), Tick(10), Dump,
       Restart(false), NewInjector(6), Dump, Restart(false), Dump, NewInjector(7), Restart(true), NewInjector(8), CloneInjector(9, 8), Restart(true), Dump, DropInjector(6), DropInjector(8), Dump, Tick(0), Dump], vec![]);
@@ -507,11 +535,14 @@ pub fn run(tier: &str, seed: u64, shards: usize, outdir: &str, only: Option<&str
                 continue;
             }
             let path = format!("{}/shard-{:02}.ndjson", outdir, shard);
+            // marker for the driver: if the process dies without a word (segfault, abort), this is the run that did it
+            let _ = std::fs::write(format!("{}/shard-{:02}.current", outdir, shard), format!("{{\"run\":{},\"scenario\":\"{}\"}}", run_id, sc.name));
             let mut lines = Vec::new();
             let pol = if k == 0 { Policy::Free } else { Policy::Random(seed.wrapping_mul(104729).wrapping_add(run_id), 120) };
-            let starve = match k % 4 {
+            let starve = match k % 6 {
                 1 => Some("main"),
-                2 => Some("w1"),
+                2 => Some("w"),
+                3 => Some("pool"),
                 _ => None,
             };
             run_scenario(sc, pol, run_id, &mut lines, starve, &path);
